@@ -137,14 +137,14 @@ class Check:
               "coverage": cov, "assumptions": self.assumptions, "wall_s": round(wall, 3),
               "violations": len(new_viol)}
         os.makedirs(os.path.join(VERIF, "evidence"), exist_ok=True)
-        if self.only_key is None:
+        if self.only_key is None and not os.environ.get("VF_NO_EVIDENCE"):
             with open(os.path.join(VERIF, "evidence", self.pid + ".json"), "w") as f:
                 json.dump(ev, f, indent=1, ensure_ascii=False)
         for o in known_hit:
             print("KNOWN-FINDING: property=%s %s %s [%s] %s" % (self.pid, o["key"], known_keys[o["key"]]["what"], o["loc"], o["detail"][:200]))
         rc = 0
         if new_viol:
-            rdir = os.path.join(VERIF, "replay", self.pid)
+            rdir = os.path.join(os.environ.get("VF_REPLAY_DIR") or os.path.join(VERIF, "replay"), self.pid)
             os.makedirs(rdir, exist_ok=True)
             for i, o in enumerate(new_viol):
                 path = os.path.join(rdir, "%d.json" % i)
